@@ -60,12 +60,74 @@ def frame_obligations(pid):
     return out
 
 
+def nonneg_obligations(pid):
+    """`value frame`: for contracts that promise attr >= 0 on the strength
+    of `nonneg_frame=[attr]`: every write to self.attr anywhere in the class
+    hierarchy is `= <non-negative literal>` or `+= <non-negative literal>`
+    (so the attribute, once non-negative, stays so)."""
+    import ast
+    from pyvc.front import ClassIndex
+    C.load_all()
+    out = []
+    ci = ClassIndex.get()
+    for con in C.for_property(pid):
+        for attr in con.extra.get("nonneg_frame", []):
+            t0 = time.time()
+            cls = con.func.split(".")[0]
+            shape_cls = C.SHAPES[con.self_shape or cls].cls
+            bad = []
+            for cname in ci.mro(shape_cls):
+                info = ci.classes[cname]
+                for fn in list(info["methods"].values()) + \
+                        list(info["properties"].values()) + \
+                        list(info["setters"].values()):
+                    for node in ast.walk(fn):
+                        tgt = val = None
+                        aug = False
+                        if isinstance(node, ast.Assign):
+                            for t in node.targets:
+                                if isinstance(t, ast.Attribute) and \
+                                        isinstance(t.value, ast.Name) and \
+                                        t.value.id == "self" and \
+                                        t.attr == attr:
+                                    tgt, val = t, node.value
+                        elif isinstance(node, ast.AugAssign):
+                            t = node.target
+                            if isinstance(t, ast.Attribute) and isinstance(
+                                    t.value, ast.Name) and \
+                                    t.value.id == "self" and t.attr == attr:
+                                tgt, val, aug = t, node.value, True
+                                if not isinstance(node.op, ast.Add):
+                                    bad.append(f"{cname}.{fn.name}:"
+                                               f"{node.lineno}")
+                                    continue
+                        if tgt is None:
+                            continue
+                        ok = isinstance(val, ast.Constant) and isinstance(
+                            val.value, (int, float)) and val.value >= 0
+                        if not ok:
+                            bad.append(f"{cname}.{fn.name}:{node.lineno}")
+            res = {"ident": f"{con.func}::nonneg_frame[{attr}]",
+                   "function": con.func, "file": con.file,
+                   "kind": "value_frame", "backend": "frame-inference",
+                   "time": time.time() - t0,
+                   "detail": {"attr": attr, "offending_writes": bad}}
+            if bad:
+                res["status"] = "refuted"
+                res["note"] = (f"self.{attr} is written by something other "
+                               f"than `= c` / `+= c` (c >= 0): {bad}")
+            else:
+                res["status"] = "discharged"
+            out.append(res)
+    return out
+
+
 def register(pid):
     from pyvc.extra import extra
 
     @extra(pid)
     def _f(tier, seed, pid=pid):
-        return frame_obligations(pid)
+        return frame_obligations(pid) + nonneg_obligations(pid)
 
 
 for _p in ("C01", "C13", "C15", "C05"):
